@@ -173,3 +173,33 @@ func init() {
 	gens["sh"] = genShCases
 	runs["sh"] = runSh
 }
+
+// shd: cases restricted to the domain of C03 (layouts fixed by the specifications)
+func genShdCases(r *Rng, n int, w *bufio.Writer) {
+	for i := 0; i < n; i++ {
+		c := genShCase(r)
+		switch c.algo {
+		case "legacy":
+			c.ht = uint32(r.Pick(1, 2, 3))
+			if c.idx >= len(c.tx.Inputs) {
+				c.idx = 0
+			}
+			if c.ht == 3 {
+				c.idx = 0
+			}
+		case "v0":
+			c.ht = uint32(r.Pick(1, 2, 3, 0x81, 0x82, 0x83))
+		case "v1":
+			c.ht = uint32(r.Pick(0, 1, 2, 3, 0x81, 0x82, 0x83))
+		}
+		var b sb
+		c.write(&b)
+		s := b.String()
+		fmt.Fprintln(w, "shd"+s[2:])
+	}
+}
+
+func init() {
+	gens["shd"] = genShdCases
+	runs["shd"] = runSh
+}
